@@ -126,7 +126,7 @@ class Policy(object):
         return ''
 
 
-def run_scenario(H, year, forms, seed, profile, overrides=None, initial=None, solver_cls=None, refuse_after=None):
+def run_scenario(H, year, forms, seed, profile, overrides=None, initial=None, solver_cls=None, refuse_after=None, on_prompt=None, policy=None):
     """Runs the real solver. Returns dict(ok, solver, store, policy, exc)."""
     cfg = configparser.ConfigParser()
     for k, v in (initial or {}).items():
@@ -134,11 +134,19 @@ def run_scenario(H, year, forms, seed, profile, overrides=None, initial=None, so
         if not cfg.has_section(sec):
             cfg.add_section(sec)
         cfg.set(sec, opt, str(v))
-    store = H['inputs'].InputStore(cfg)
-    pol = Policy(seed, dict(profile, year=year), overrides)
+    inputs_read = set()
+
+    class RecStore(H['inputs'].InputStore):
+        def __getitem__(self, key):
+            inputs_read.add(key)
+            return super().__getitem__(key)
+    store = RecStore(cfg)
+    pol = policy or Policy(seed, dict(profile, year=year), overrides)
     count = [0]
 
     def prompt(missing, needed_by):
+        if on_prompt is not None:
+            on_prompt(missing, needed_by, store, res)
         if refuse_after is not None and count[0] >= refuse_after:
             return (None, False)
         count[0] += 1
@@ -149,9 +157,10 @@ def run_scenario(H, year, forms, seed, profile, overrides=None, initial=None, so
                 return (a, True)
         pol.asked.append((missing.name(), None, [f.name() for f in needed_by]))
         return (None, False)
+    res = {}
     cls = solver_cls or H['solver'].Solver
     s = cls(store, H['forms'].available_forms[year], prompt=prompt)
-    res = {'solver': s, 'store': store, 'policy': pol, 'exc': None, 'ok': None}
+    res.update({'solver': s, 'store': store, 'policy': pol, 'exc': None, 'ok': None, 'inputs_read': inputs_read})
     try:
         res['ok'] = s.solve(list(forms))
     except Exception as e:  # noqa
